@@ -303,6 +303,20 @@ def np_searchsorted(ex, args, kw, st):
     return i
 
 
+def np_extremum(meth):
+    def g(ex, args, kw, st):
+        if kw or len(args) != 1:
+            raise Unsupported(f'np.{meth} with options')
+        v = args[0]
+        if isinstance(v, SArr) and v.ndim == 1:
+            f = snap(v)
+            v = SSeq(v.shape[0], lambda i, f=f: f((i,)), v.kind)
+        if isinstance(v, SSeq):
+            return arr_method(ex, v, meth, [], {}, st)
+        raise Unsupported(f'np.{meth} of this value')
+    return g
+
+
 def np_isscalar(ex, args, kw, st):
     v = args[0]
     if is_num(v) or isinstance(v, (bool, int, float, str, SStr)):
@@ -1247,7 +1261,8 @@ TABLE = {
     'int': p_int, 'float': p_float, 'bool': p_bool, 'abs': p_abs, 'np.abs': p_abs,
     'np.fabs': p_abs, 'fabs': p_abs, 'math.fabs': p_abs,
     'min': p_min, 'max': p_max, 'len': p_len, 'isinstance': p_isinstance, 'slice': p_slice,
-    'tuple': p_tuple, 'list': p_list, 'set': p_set, 'sorted': p_sorted, 'np.insert': np_insert, 'np.isscalar': np_isscalar, 'np.searchsorted': np_searchsorted, 'zip': p_zip, 'range': p_range, 'enumerate': p_enumerate,
+    'tuple': p_tuple, 'list': p_list, 'set': p_set, 'sorted': p_sorted, 'np.insert': np_insert, 'np.isscalar': np_isscalar, 'np.max': np_extremum('max'), 'np.min': np_extremum('min'),
+    'np.amax': np_extremum('max'), 'np.amin': np_extremum('min'), 'np.searchsorted': np_searchsorted, 'zip': p_zip, 'range': p_range, 'enumerate': p_enumerate,
     'sum': p_sum, 'all': p_all_py, 'any': p_any_py, 'round': p_round_unsupported,
     'math.sqrt': p_sqrt, 'np.sqrt': p_sqrt, 'sqrt': p_sqrt,
     'math.sin': p_sin, 'np.sin': p_sin, 'sin': p_sin,
